@@ -4,7 +4,9 @@ F-trace harnesses over the *whole* registry of the really instrumented module ``
 (3 predicates — two of them on one source line that is also a ``def`` line —, 4 code objects of which
 2 are branch-less, 8 line ids).  A stub suite of one or two chromosomes carries symbolic traces; the real
 ``get_coverage_report`` is called with a symbolic metrics subset and, on its result, the real
-``render_xml_coverage_report`` (into an in-memory file).
+``render_xml_coverage_report`` (into an in-memory file).  A second module, ``corpus/C35_lambda.py``, has one
+source line that is a ``def`` line, holds a predicate and starts a branch-less code object (a lambda), so that
+the per-line sum is also decided for a line carrying both kinds of branch goals (obligation ``lambda_line``).
 
 Oracle (from the decoded selector state only):
 * totals: ``branch_coverage`` / ``line_coverage`` equal the tracked coverage (``compute_branch_coverage`` /
@@ -28,10 +30,26 @@ from engines.prelude import pick, reach
 from harness import _ftrace as ft
 
 PROPERTY = "C35"
-MODULE = "C35_small"
-V = ft.View(None, module_name=MODULE)
+class _Ctx:
+    """One instrumented corpus module: its whole registry and the line tables the oracle uses."""
+
+    def __init__(self, module):
+        self.MODULE = module
+        self.V = V = ft.View(None, module_name=module)
+        self.N_SOURCE = len(open(V.module.__file__).read().splitlines())
+        self.PRED_LINE = {p: V.sp.existing_predicates[p].line_no for p in V.preds}
+        self.CO_LINE = {c: V.sp.existing_code_objects[c].code_object.co_firstlineno for c in V.branchless}
+        self.LINE_NO = {l: V.sp.existing_lines[l].line_number for l in V.lines}
+
+
+# 0: three predicates (two on one def line), two branch-less code objects, 8 lines
+# 1: one line that is a def line, a predicate line AND the first line of a branch-less code object (lambda)
+CTX = (_Ctx("C35_small"), _Ctx("C35_lambda"))
+V = CTX[0].V
 assert len(V.preds) == 3 and len(V.code_objects) == 4 and len(V.branchless) == 2 and len(V.lines) == 8, V
-N_SOURCE = len(open(V.module.__file__).read().splitlines())
+_V1 = CTX[1].V
+assert len(_V1.preds) == 1 and len(_V1.branchless) == 2 and len(_V1.lines) == 2, _V1
+assert set(CTX[1].PRED_LINE.values()) & set(CTX[1].CO_LINE.values()), "lambda line must also hold the predicate"
 METRICS = (
     set(),
     {config.CoverageMetric.BRANCH},
@@ -39,9 +57,6 @@ METRICS = (
     {config.CoverageMetric.BRANCH, config.CoverageMetric.LINE},
     {config.CoverageMetric.BRANCH, config.CoverageMetric.LINE, config.CoverageMetric.CHECKED},
 )
-PRED_LINE = {p: V.sp.existing_predicates[p].line_no for p in V.preds}
-CO_LINE = {c: V.sp.existing_code_objects[c].code_object.co_firstlineno for c in V.branchless}
-LINE_NO = {l: V.sp.existing_lines[l].line_number for l in V.lines}
 TS = datetime.datetime(2024, 1, 2, 3, 4, 5)
 
 
@@ -69,14 +84,16 @@ def _second_trace(kind):
     return [None, None, (2, 0.0, 0.0)], [True, True], set()
 
 
-def _check(m, sts, bl_bits, lbits, second) -> bool:
+def _check(m, sts, bl_bits, lbits, second, ci=0) -> bool:
+    ctx = CTX[ci]
+    V, MODULE, PRED_LINE, CO_LINE, LINE_NO = ctx.V, ctx.MODULE, ctx.PRED_LINE, ctx.CO_LINE, ctx.LINE_NO
     config.configuration.module_name = MODULE
     metrics = pick(METRICS, m)
     co_bits = [c in V.branchless and bl_bits[V.branchless.index(c)] for c in V.code_objects]
     traces = [ft.build_trace(V, sts, co_bits, lbits)]
     line_on = [bool(b) for b in lbits]
     if second == 1:
-        traces.append(ft.build_trace(V, [None] * 3, [False] * 4))
+        traces.append(ft.build_trace(V, [None] * len(V.preds), [False] * len(V.code_objects)))
     elif second >= 2:
         sts2, bl2, lines2 = _second_trace(second)
         co2 = [c in V.branchless and bl2[V.branchless.index(c)] for c in V.code_objects]
@@ -111,13 +128,14 @@ def _check(m, sts, bl_bits, lbits, second) -> bool:
     path = _MemPath()
     rep.render_xml_coverage_report(report, path, TS)
     text = path.file.getvalue()
-    facts = (with_branch, with_line, exp_br, exp_bl, exp_ln, tracked_b, tracked_l)
+    facts = (ci, with_branch, with_line, exp_br, exp_bl, exp_ln, tracked_b, tracked_l)
     return ft.untraced(_compare, report, text, facts)
 
 
 def _compare(report, text, facts) -> bool:
     """Pure comparison of the report / XML text with the expected per-line facts (all concrete)."""
-    with_branch, with_line, exp_br, exp_bl, exp_ln, tracked_b, tracked_l = facts
+    ci, with_branch, with_line, exp_br, exp_bl, exp_ln, tracked_b, tracked_l = facts
+    MODULE, N_SOURCE = CTX[ci].MODULE, CTX[ci].N_SOURCE
     tot_br = [sum(e[0] for e in exp_br.values()), sum(e[1] for e in exp_br.values())]
     tot_bl = [sum(e[0] for e in exp_bl.values()), sum(e[1] for e in exp_bl.values())]
     tot_ln = [sum(e[0] for e in exp_ln.values()), sum(e[1] for e in exp_ln.values())]
@@ -226,6 +244,17 @@ def h_report(m: int, second: int, s0: int, n0: int, a0: int, k0: bool, s1: int, 
     return reach(_check(m, sts, [b0, b1], [l0, l1, l2, l3, l4, l5, l6, l7], second))
 
 
+def h_report_lambda(m: int, second: int, s0: int, n0: int, a0: int, k0: bool, b0: bool, b1: bool, l0: bool, l1: bool) -> bool:
+    """
+    pre: 0 <= m <= 4 and 0 <= second <= 1
+    pre: 0 <= s0 <= 3 and 1 <= n0 <= 1000 and 1 <= a0 <= 2**60
+    post: _
+    """
+    # corpus/C35_lambda.py: the line of choose() holds its predicate, starts the branch-less lambda and is a def line
+    sts = [ft.pred_state(s0, n0, a0 / 16, k0)]
+    return reach(_check(m, sts, [b0, b1], [l0, l1], second, ci=1))
+
+
 META = {
     "level": "model_checking",
     "claim": "Bounded model checking by symbolic execution of the real get_coverage_report / _get_line_to_branch_coverage / "
@@ -245,7 +274,9 @@ META = {
                   "CoverageEntry.__add__", "LineAnnotation.__add__/message", "render_xml_coverage_report",
                   "pynguin.ga.fitness_metrics.compute_branch_coverage/compute_line_coverage/analyze_results",
                   "SubjectProperties.lineids_to_linenos"],
-    "bounds": {"module": "corpus/C35_small.py (3 predicates, 4 code objects, 8 line ids, 16 source lines)",
+    "bounds": {"module": "corpus/C35_small.py (3 predicates, 4 code objects, 8 line ids, 16 source lines); corpus/C35_lambda.py "
+               "(1 predicate, 3 code objects, 2 line ids; one line is def + predicate + first line of a branch-less lambda): all "
+               "states, with/without an empty second trace",
                "branch obligations": "all 4**3 predicate states x 2**2 branch-less bits, lines not visited",
                "line obligations": "all 2**8 line subsets, no predicate executed",
                "both metrics": "all predicate states x branch-less bits x 3 symbolic line bits (ids 1, 4, 7)",
@@ -283,4 +314,6 @@ def obligations(tier: str):
     # other metric subsets and an empty second trace, on a thinner slice
     thin = dict(some, s1=0, n1=1, a1=1, k0=False, **nok12)
     obs.append(Chx("metrics", h_report, timeout=T, fix=thin, split={"m": [0, 4], "second": [0, 1]}))
+    # a line that starts a branch-less code object AND holds a predicate (lambda + conditional expression)
+    obs.append(Chx("lambda_line", h_report_lambda, timeout=T, split={"m": [1, 3] if q else [0, 1, 2, 3, 4]}))
     return obs
